@@ -18,6 +18,15 @@ tensor, repeated values at every position, rank 1 / 2, planar, near-diagonal ...
 judged cell by cell (no dense arrays) so that shapes with n_row * n_col beyond 2^31 / 2^32 / 2^33 and a handful of entries are
 ordinary cases, with per-matrix formats, index / value dtypes and repeated COO cells; the eigh tie is keyed by the matrix handed
 to eigh (it used to index the rows of ONE captured call and crashed the harness when femio called eigh on a subset of the rows).
+
+Round 5 (classes K, L, N, T of ROUND5.md; seeded change C17-9): stream 10 `align mixed dtype` - the matrices of ONE list have
+different value dtypes (integer / bool adjacency or count matrices next to signed float64 weights, float32 next to float64, signed
+next to unsigned), the float values are decimal fractions of the magnitude of the integer entries chosen per LIST (so that the
+minimum, hence D = 2 |min| + 1, is not a short dyadic number), and for the adjacency / count styles the generator redraws the
+minimum until the dummy trick (v + c D) - c D is INEXACT in binary64 on an integer entry (deliberate structure, not luck); one
+matrix may occur twice in the list (same object / equal copy); every list is aligned twice.  Tie R: Model/TensorRound.lean models
+the three binary64 operations (round to nearest even, 53 bits) and predicts every returned value (bit for bit on the unchanged
+code; 4 ulp are allowed for another evaluation order; driver command c17.alignfl).  Stream 11 `absolute scale`: batches multiplied by 2^+-(40..250) and batches with repeated tensors.
 """
 import itertools
 from fractions import Fraction as F
@@ -32,7 +41,7 @@ PROP = 'C17'
 LEAN_MODULES = ['Femio.Props.C17']
 THEOREMS = ['C17_arr_mat_inverse', 'C17_principal', 'C17_principal_array', 'C17_invert_strain', 'C17_lte_roundtrip',
             'C17_align_nnz', 'C17_diag_shortcut', 'C17_diag_shortcut_rows_selfinverse', 'C17_diag_shortcut_rows_counterexample',
-            'C17_flat_key_order', 'C17_flat_key_wrap_counterexample']
+            'C17_flat_key_order', 'C17_flat_key_wrap_counterexample', 'C17_align_cast_exact', 'C17_align_cast_roundoff_counterexample']
 PARTIAL = ['clause "does not modify the caller\'s array": no theorem (numpy aliasing), checked on the implementation by '
            'snapshot comparison for every helper, dtype and memory layout (read-only inputs included: a write raises)',
            'C17_diag_shortcut / C17_flat_key_order are about implementations femio does not have (a shear-free shortcut, alignment by '
@@ -40,6 +49,10 @@ PARTIAL = ['clause "does not modify the caller\'s array": no theorem (numpy alia
            '(C17-8, C17-7); the real code is tied to diagShortcut on every exactly diagonal tensor with distinct values',
            'np.linalg.eigh is not modelled: its post-condition (IsEigh, ascending) is the explicit hypothesis of '
            'C17_principal / C17_principal_array / C17_invert_strain / C17_lte_roundtrip, evaluated exactly on every captured call',
+           'C17_align_cast_exact / C17_align_cast_roundoff_counterexample (round 5, seeded change C17-9): the exact model cannot see a cast '
+           'of the recovered values back to an integer dtype; the binary64 model (Model/TensorRound.lean: round to nearest even, 53 bits, '
+           'unbounded exponent) shows 1 -> 0.9999999999999996 -> 0 for D = fl(3.6). No general error bound of the dummy trick is proved; '
+           'the real values are tied to the binary64 model (bit for bit on the unchanged code, 4 ulp allowed) on every list with <= 64 stored output values',
            'convert_lte_*: only global -> local -> global is claimed by the property and proved (local -> global -> local '
            'cannot return the original values when the stored eigenvalues are not ascending)']
 RULE = ('batches of 1..6 symmetric tensors (random dyadic / decimal / integer-valued entries, scale 1e-6..1e6, rotated '
@@ -65,7 +78,15 @@ RULE = ('batches of 1..6 symmetric tensors (random dyadic / decimal / integer-va
         'just below / beyond 2^31, 2^32, 2^33, n_row <= 3e5, up to 14 stored entries concentrated at the corners, the last rows / '
         'columns and the rows / columns where row * n_col + col crosses a power of two; layouts spread / first-and-last rows / shared; '
         'two shapes with n_col > 2^31, i.e. int64 index arrays inside scipy); sub-stream int-dtype-extreme (entries at the ends of the '
-        'integer dtype + the entry that the WRAPPED dummy value would cancel); corpus/C17 first. distinct = distinct (helper, input, '
+        'integer dtype + the entry that the WRAPPED dummy value would cancel); stream "align mixed dtype" (round 5): 2..4 matrices whose value dtypes DIFFER inside the list, styles '
+        'adjacency+weights (0/1 bool / int / uint matrix of a ring or a random symmetric edge set + signed float64 weights), '
+        'counts+weights (counts 1..120), random-mix, float32+float64, int+int (signed with unsigned, narrow with wide); float64 values '
+        'per LIST: tenths / hundredths / 6-decimal fractions of magnitude <= 1.5 x {1, 10, 100} or the per-entry mix; for the two '
+        'weight styles the most negative float entry is redrawn (<= 60 times, 80 % of the lists) until (v + c D) - c D is inexact '
+        'toward zero in binary64 on an integer entry (15..25 such lists per quick run); one matrix twice in the list (same object / '
+        'equal copy, 25 %); format, index dtype, sortedness per matrix; small (<= 6 x 6) and medium (<= 120 x 120) shapes; every list '
+        'aligned twice; stream "absolute scale" (round 5): general / structured batches x 2^+-(40..250) through arrmat, principal, '
+        'lte, and batches in which 1..3 tensors occur twice; corpus/C17 first. distinct = distinct (helper, input, '
         'options); a case is non-trivial unless the tensor batch is all zero / all matrices are empty.')
 ASSUMPTIONS = [
     'np.linalg.eigh post-condition (orthonormal eigenvectors, ascending eigenvalues) is a hypothesis of the theorems; '
@@ -88,6 +109,11 @@ ASSUMPTIONS = [
     '2e-5 (relative to the scale, kappa^2 for strains) instead of 1e-12 (measured worst case on the unchanged code over 26000 '
     'tensors: 3.4e-7); the model tie is skipped for float32 (eigh residuals are at single-precision level); integer and unsigned '
     'inputs are promoted to binary64 by numpy and judged like float64',
+    'align_nnz, tie R: the returned values are compared with fl(fl(v + d_c) - d_c) of the binary64 model, d_c = D added c times (the '
+    'order in which femio adds the patterns; scipy adds / subtracts CSR matrices entry by entry in binary64 after promoting integer / '
+    'bool / float32 values exactly): bit for bit on the unchanged code (counted in the evidence); a deviation of at most 4 ulp of '
+    '|v| + (c + 1) D (another evaluation order of the same operations) is counted, a larger one is a broken correspondence; lists '
+    'with <= 64 output values and no repeated COO cells',
     'float16 / longdouble inputs are outside the quantifier (numpy.linalg does not support them)',
     'big sparse shapes keep n_row <= 3e5 (CSR row pointers) and CSC only with n_col <= 4e5; CSR inputs with more than 4e5 columns '
     'have sorted indices (scipy adds unsorted CSR matrices with an O(n_col) workspace: a cost, not a value)',
@@ -95,7 +121,14 @@ ASSUMPTIONS = [
     'is a broken correspondence (the model post-processes an eigh result), reported once per helper; the oracle decides',
 ]
 TRUSTED = ['C17: np.linalg.eigh is wrapped by the harness to capture its argument and result (copied before femio '
-           'overwrites the third eigenvector in place)']
+           'overwrites the third eigenvector in place)',
+           'C17 tie S: harness/gen_tensor_kernels.py (symbolic-execution translator working tree -> lean/Femio/Gen/TensorKernels.lean): '
+           'the exact polynomial class Sym of gen_kernels.py, np.linalg.eigh replaced by a stub returning fresh symbols and recording its '
+           'argument while tracing; everything else the helpers do is numpy acting on object arrays']
+
+# tie S (DESIGN 2.3b): the polynomial maps traced from the real tensor helpers by symbolic execution = the model functions of
+# Model/Tensor.lean, proved by `ring` over every field on every run (Props/TensorTie.lean, built and audited separately)
+from .tensor_tie import tensor_tie as EXTRA_OBLIGATIONS, EXTRA_THEOREMS   # noqa: E402
 
 
 # ------------------------------------------------------------------ helpers
@@ -823,10 +856,41 @@ def stored_pattern(o):
     return list(zip(rows.tolist(), o.indices.tolist()))
 
 
+def judge_align(case, out, want, union, D, tolA, pre, note):
+    """the align_nnz clause of the property on one returned list: one common pattern (the union of the stored cells of the inputs)
+    and, cell by cell, the values of the corresponding input (O(nnz), no dense arrays)"""
+    fails = []
+    r, c = case['mats'][0]['shape']
+    small = r * c <= 64
+    ocsr = [o.tocsr() for o in out]
+    pats = [stored_pattern(o) for o in ocsr]
+    if len(out) != len(want) or any(p != union for p in pats):
+        fails.append((pre + 'align:pattern', 'aligned matrices do not share the union pattern of the inputs' + note,
+                      {'union': union, 'patterns': pats, 'mats': case['mats']}))
+    for k, (o, d) in enumerate(zip(ocsr, want)):
+        got = cells_of(o) if o.shape == (r, c) else None
+        bad = None if got is not None else 'shape'
+        if got is not None:
+            for cell in set(got) | set(d):
+                if abs(got.get(cell, 0.0) - float(d.get(cell, 0))) > tolA:
+                    bad = cell
+                    break
+        if bad is not None:
+            fails.append((pre + 'align:values', f'aligned matrix {k} differs from its input{note}' + (f' at cell {bad}: input {float(d.get(bad, 0))!r}, '
+                          f'aligned {got.get(bad, 0.0)!r}' if got is not None else ' (shape)'),
+                          {'input': sorted([i, j, float(v)] for (i, j), v in d.items()),
+                           'output': sorted([i, j, v] for (i, j), v in (got or {}).items()), 'D': D,
+                           **({'mats': case['mats']} if small else {})}))
+            break
+    return fails
+
+
 def check_align(ctx, case):
     from femio import functions as fn
     fails = []
-    mats = [build_sparse(s) for s in case['mats']]
+    mats = []
+    for s_ in case['mats']:      # 'alias': k = the very same scipy object as the k-th matrix of the list (class K of ROUND5)
+        mats.append(mats[s_['alias']] if 'alias' in s_ else build_sparse(s_))
     r, c = case['mats'][0]['shape']
     want = []                                   # the value of every input: {cell: exact value}, explicit zeros are stored cells
     for s_ in case['mats']:      # hypothesis hwf of the theorem (repeated cells only in the COO format, where they mean their sum)
@@ -839,6 +903,7 @@ def check_align(ctx, case):
     snap = [cells_of(m) for m in mats]
     pre = case.get('sigprefix', '')
     out = fn.align_nnz(mats)
+    out_again = fn.align_nnz(mats) if case.get('twice') else None     # the caller's list handed in a second time
     # (scipy canonicalises unsorted inputs in place when adding; the property does not claim anything about the
     #  representation of the inputs, only the values are compared)
     for m, d in zip(mats, snap):
@@ -851,28 +916,11 @@ def check_align(ctx, case):
     # (a positive matrix has D = 1 whatever the size of its entries)
     tolA = 1e-12 * max(D, float(max(abs(v) for v in allv)) if allv else 0.0)
     union = sorted({k for d in want for k in d})
-    small = r * c <= 64
     out = list(out)
     ocsr = [o.tocsr() for o in out]
-    pats = [stored_pattern(o) for o in ocsr]
-    if len(out) != len(mats) or any(p != union for p in pats):
-        fails.append((pre + 'align:pattern', 'aligned matrices do not share the union pattern of the inputs',
-                      {'union': union, 'patterns': pats, 'mats': case['mats']}))
-    for k, (o, d) in enumerate(zip(ocsr, want)):
-        got = cells_of(o) if o.shape == (r, c) else None
-        bad = None if got is not None else 'shape'
-        if got is not None:
-            for cell in set(got) | set(d):
-                if abs(got.get(cell, 0.0) - float(d.get(cell, 0))) > tolA:
-                    bad = cell
-                    break
-        if bad is not None:
-            fails.append((pre + 'align:values', f'aligned matrix {k} differs from its input' + (f' at cell {bad}: input {float(d.get(bad, 0))!r}, '
-                          f'aligned {got.get(bad, 0.0)!r}' if got is not None else ' (shape)'),
-                          {'input': sorted([i, j, float(v)] for (i, j), v in d.items()),
-                           'output': sorted([i, j, v] for (i, j), v in (got or {}).items()), 'D': D,
-                           **({'mats': case['mats']} if small else {})}))
-            break
+    fails += judge_align(case, out, want, union, D, tolA, pre, '')
+    if out_again is not None and not fails:
+        fails += judge_align(case, list(out_again), want, union, D, tolA, pre + 'second-call:', ' (second call with the same list)')
     if ctx.driver is not None:
         toks = ['c17.align', str(r * c), str(len(want))]
         for d in want:           # the model's input is the canonical form of every matrix (repeated COO cells summed)
@@ -892,6 +940,32 @@ def check_align(ctx, case):
                     ctx.disagree('align_nnz output', case, real, [(i, j, str(v)) for i, j, v in mo])
                     break
         ctx.count('compared:align_nnz matrices', len(mats))
+        # tie R (round 5): the binary64 model of the dummy trick (Model/TensorRound.lean: every value is fl(fl(v + d_c) - d_c),
+        # d_c = D added c times, c = number of matrices of the list storing the cell) predicts every returned value BIT-EXACTLY;
+        # lists without repeated COO cells (scipy's summation order of duplicates is not modelled), at most 64 stored values
+        if len(out) == len(want) and all(len(d) == len(s_['entries']) for d, s_ in zip(want, case['mats'])) \
+                and all(p == union for p in (stored_pattern(o) for o in ocsr)) and 0 < len(union) * len(want) <= 64:
+            cnt = {cell: sum(1 for d in want if cell in d) for cell in union}
+            pairs = [(cnt[cell], d.get(cell, F(0))) for d in want for cell in union]
+            r_ = ctx.driver.ask(f'c17.alignfl {C.enc_rat(D)} {len(pairs)} ' + ' '.join(f'{c_} {v}' for c_, v in pairs))
+            model = reply_rats(r_)[1:]
+            real = [F(float(x)) for o in ocsr for x in o.data.tolist()]
+            # bit for bit on the unchanged code; another evaluation order of the same three operations (still the property: the
+            # values are the original ones within rounding) may differ by a few ulp of |v| + d_c: counted, not reported
+            exact = len(model) == len(real) and model == real
+            if not exact:
+                slack = [4 * 2.0**-53 * (abs(float(v)) + (c_ + 1) * D) for c_, v in pairs]
+                bad = [i for i, (a_, b_) in enumerate(zip(model, real)) if abs(float(a_ - b_)) > slack[i]] if len(model) == len(real) else [0]
+                if bad:
+                    q = bad[0]
+                    ctx.disagree('align_nnz values vs the binary64 model of (v + c D) - c D (more than 4 ulp of |v| + c D)', case,
+                                 {'D': D, 'c, v': [pairs[q][0], float(pairs[q][1])], 'real': float(real[q]) if real else None},
+                                 float(model[q]) if model else None)
+                else:
+                    ctx.count('tie R: align_nnz values differ from the binary64 model in the last bits only (lists)')
+            else:
+                ctx.count('tie R: align_nnz values equal the binary64 model bit for bit (lists)')
+            ctx.count('compared:align_nnz values vs binary64 model', len(pairs))
     return fails
 
 
@@ -1056,6 +1130,163 @@ def gen_align_x(rnd, size):
     return case
 
 
+INT_DTYPES = ['int8', 'int16', 'int32', 'int64', 'uint8', 'uint16', 'uint32', 'uint64']
+MIX_STYLES = ['adjacency+weights', 'counts+weights', 'random-mix', 'random-mix', 'float32+float64', 'int+int']
+
+
+def mix_value(rnd, dtype, sign, style, wscale=1, fkind='any'):
+    """one stored value of a matrix of the mixed-dtype stream: integer-dtype matrices hold 1 (adjacency), small counts or counts up
+    to 120; float64 matrices mostly hold decimal fractions of magnitude up to 1.5 * wscale (k/10, k/100, 6 decimals: D = 2 |min| + 1
+    is then NOT a dyadic number and of the magnitude of the integer entries, so that v + c D often lies in the binade above c D and
+    (v + c D) - c D carries round-off: 0.9999999999999996 for 1), some dyadic fractions / integers / values below 1e-3; float32
+    matrices dyadic fractions with <= 20 bits"""
+    dt = np.dtype(dtype)
+    if dt.kind == 'b':
+        return 1.0
+    if dt.kind in 'iu':
+        v = 1.0 if style == 'adjacency+weights' else float(rnd.choice([rnd.randint(1, 9), rnd.randint(1, 9), rnd.randint(10, 120)]))
+    elif dt.itemsize == 8:
+        c = fkind if fkind != 'any' else rnd.choice(['tenths', 'hundredths', 'decimal', 'decimal', 'dyadic', 'int', 'small'])
+        v = {'tenths': lambda: rnd.randint(1, 15) * wscale / 10, 'hundredths': lambda: rnd.randint(1, 150) * wscale / 100,
+             'decimal': lambda: (round(rnd.uniform(0, 1.5), 6) + 1e-6) * wscale, 'dyadic': lambda: rnd.randint(1, 2**20) / 2.0**rnd.randint(0, 12),
+             'int': lambda: float(rnd.randint(1, 9)), 'small': lambda: round(rnd.uniform(0, 1e-3), 9) + 1e-9}[c]()
+    else:
+        v = rnd.choice([float(rnd.randint(1, 9)), rnd.randint(1, 2**20) / 2.0**rnd.randint(0, 12)])
+    if dt.kind not in 'ub' and (sign == 'negative' or (sign == 'mixed' and rnd.random() < .5)):
+        v = -v
+    return v
+
+
+def roundoff_exposed(mats):
+    """does the dummy trick of align_nnz - every output value is (v + c D) - c D with D = 2 |min| + 1 and c = number of matrices of
+    the list that store the cell - recover some entry of an INTEGER-dtype matrix of the list inexactly in binary64? Returns
+    'toward-zero' / 'away' / None.  (Used by the generator only, to make such lists a deliberate style: the oracle never looks at it.)"""
+    cnt, allv = {}, []
+    r, c = mats[0]['shape']
+    for m_ in mats:
+        for cell in {(e[0], e[1]) for e in m_['entries']}:
+            cnt[cell] = cnt.get(cell, 0) + 1
+        allv += [e[2] for e in m_['entries']]
+        if len(m_['entries']) < r * c:
+            allv.append(0.0)
+    D = abs(float(min(allv))) * 2 + 1
+    res = None
+    for m_ in mats:
+        if np.dtype(m_['dtype']).kind not in 'iub':
+            continue
+        for i, j, v in m_['entries']:
+            dummy = 0.0
+            for _ in range(cnt[(i, j)]):
+                dummy += D
+            got = (v + dummy) - dummy
+            if got != v:
+                if abs(got) < abs(v):
+                    return 'toward-zero'
+                res = 'away'
+    return res
+
+
+def gen_align_mix(rnd, style=None, size=None):
+    """align_nnz on a list whose matrices do NOT share one value dtype (classes K, N, T of ROUND5: mixed int + float inputs in one
+    call, made a deliberate style instead of luck): 2..4 matrices of a common shape, value dtype PER MATRIX according to `style`
+      adjacency+weights : one or two 0/1 matrices (bool / any integer dtype; symmetric pattern for square shapes) + float64
+                          matrices of signed decimal weights on some of the same cells and some others,
+      counts+weights    : integer counts 1..120 + signed float64 weights,
+      random-mix        : every matrix draws its own dtype from ALIGN_DTYPES,
+      float32+float64   : single and double precision,
+      int+int           : different integer dtypes (signed with unsigned, narrow with wide),
+    format / index dtype / sortedness per matrix as in gen_align_x; the position of the integer matrices in the list is random;
+    with probability 1/4 one matrix appears TWICE in the list (the same scipy object, or an equal copy: two members with the same
+    cells and values); every case is evaluated twice with the same list (`twice`)."""
+    style = style or rnd.choice(MIX_STYLES)
+    size = size or rnd.choice(['small', 'small', 'small', 'medium'])
+    if size == 'medium':
+        r, c = rnd.randint(7, 120), rnd.randint(7, 120)
+    else:
+        r, c = rnd.randint(2, 6), rnd.randint(2, 6)
+    if style == 'adjacency+weights' and rnd.random() < .7:
+        c = r
+    k = rnd.randint(2, 4)
+    if style in ('adjacency+weights', 'counts+weights'):
+        n_int = 1 if k == 2 or rnd.random() < .7 else 2
+        pool = INT_DTYPES + (['bool', 'bool'] if style == 'adjacency+weights' else [])
+        dts = [rnd.choice(pool) for _ in range(n_int)] + ['float64'] * (k - n_int)
+        rnd.shuffle(dts)
+    elif style == 'float32+float64':
+        dts = ['float32', 'float64'] + [rnd.choice(['float32', 'float64']) for _ in range(k - 2)]
+        rnd.shuffle(dts)
+    elif style == 'int+int':
+        dts = rnd.sample(INT_DTYPES, k) if rnd.random() < .8 else [rnd.choice(INT_DTYPES + ['bool']) for _ in range(k)]
+    else:
+        dts = [rnd.choice(ALIGN_DTYPES) for _ in range(k)]
+        if len(set(dts)) == 1:
+            dts[rnd.randrange(k)] = rnd.choice([d for d in ALIGN_DTYPES if d != dts[0]])
+    sign = rnd.choice(['mixed', 'mixed', 'mixed', 'negative', 'positive'])
+    wscale = rnd.choice([1, 1, 1, 10, 100])
+    # kind of the float64 values PER LIST (with a kind per entry the minimum - hence D - is nearly always one of the large dyadic values)
+    fkind = rnd.choice(['tenths', 'hundredths', 'decimal', 'decimal', 'any'])
+    if size == 'small':
+        base = [(i, j) for i in range(r) for j in range(c)]
+    else:
+        base = sorted({(rnd.randrange(r), rnd.randrange(c)) for _ in range(rnd.randint(4, 40))})
+    if style == 'adjacency+weights':       # the edges of a graph on the rows: a ring / a random symmetric set (square shapes)
+        if r == c and rnd.random() < .6:
+            adj = {(i, (i + 1) % r) for i in range(r)} | {((i + 1) % r, i) for i in range(r)}
+        else:
+            adj = {x for x in base if rnd.random() < .4} or {base[0]}
+            if r == c:
+                adj |= {(j, i) for i, j in adj}
+        adj = sorted(x for x in adj if x[0] != x[1] or r != c) or [base[0]]
+    mats = []
+    for q, dtype in enumerate(dts):
+        fmt = rnd.choice(['csr', 'csr', 'csc', 'coo'])
+        is_int = np.dtype(dtype).kind in 'iub'
+        if style == 'adjacency+weights' and is_int:
+            cells = list(adj)
+        elif style == 'adjacency+weights':
+            cells = [x for x in adj if rnd.random() < .6] + [x for x in base if x not in adj and rnd.random() < (.15 if size == 'small' else .3)]
+        else:
+            dens = rnd.choice([.2, .5, .8, 1.0]) if size == 'small' else rnd.choice([.3, .6, 1.0])
+            cells = [x for x in base if rnd.random() < dens or dens == 1.0]
+        cells = sorted(set(cells))
+        if rnd.random() < .4:
+            rnd.shuffle(cells)
+        ent = []
+        for (i, j) in cells:
+            v = mix_value(rnd, dtype, sign, style, wscale, fkind)
+            if rnd.random() < .05 and fmt != 'coo' and not (style == 'adjacency+weights' and is_int):
+                v = 0.0
+            ent.append([i, j, v])
+        mats.append({'shape': [r, c], 'fmt': fmt, 'entries': ent, 'idx': rnd.choice(['int32', 'int64']), 'dtype': dtype})
+    dup = None
+    if rnd.random() < .25:
+        q0 = rnd.randrange(len(mats))
+        m2 = {**mats[q0], 'entries': [list(e) for e in mats[q0]['entries']]}
+        dup = rnd.choice(['same-object', 'equal-copy'])
+        if dup == 'same-object':
+            m2['alias'] = q0
+        mats.insert(rnd.randint(q0 + 1, len(mats)), m2)      # inserted behind q0: the position the alias refers to stays
+    exposed = roundoff_exposed(mats)
+    if style in ('adjacency+weights', 'counts+weights') and exposed != 'toward-zero' and rnd.random() < .8:
+        # deliberate structure instead of luck (class T): redraw the most negative float64 entry of the list (it determines D) until
+        # the dummy trick is inexact on an integer entry (typically within a few draws when D is of the magnitude of the entry)
+        fl = [e for m_ in mats if m_['dtype'] == 'float64' and 'alias' not in m_ for e in m_['entries']]
+        ints = [abs(e[2]) for m_ in mats if np.dtype(m_['dtype']).kind in 'iub' for e in m_['entries'] if e[2]]
+        if fl and ints:
+            e0 = min(fl, key=lambda e: e[2])
+            twins = [e for m_ in mats if m_['dtype'] == 'float64' for e in m_['entries'] if e is not e0 and e[:2] == e0[:2] and e[2] == e0[2]]
+            top = max(abs(e[2]) for e in fl)
+            for _ in range(60):
+                mag = max(top, rnd.choice(ints) * rnd.uniform(.05, 1.5))
+                e0[2] = -(round(mag * rnd.uniform(1.0, 1.3), rnd.choice([1, 2, 6])) + rnd.choice([.1, .3, .7, .01]))
+                exposed = roundoff_exposed(mats)
+                if exposed == 'toward-zero':
+                    break
+            for e in twins:               # (an equal copy of the matrix stays an equal copy)
+                e[2] = e0[2]
+    return {'mats': mats, 'twice': True}, f'{style}:{fkind}:x{wscale}', dup, exposed
+
+
 def run(ctx):
     rnd = ctx.rng
     perms = list(itertools.permutations(range(6)))
@@ -1215,6 +1446,48 @@ def run(ctx):
                 r_, c_ = case['mats'][0]['shape']
                 ctx.count('align:big:cells>2^%d' % (33 if r_ * c_ > 2**33 else 32 if r_ * c_ > 2**32 else 31 if r_ * c_ > 2**31 else 0))
     lap('9 align extended')
+    # 10. align_nnz on lists whose matrices have DIFFERENT value dtypes (ROUND5 classes K / N / T): integer adjacency / count
+    #     matrices together with signed float weights whose minimum is a decimal fraction, float32 with float64, signed with
+    #     unsigned, one matrix twice in the list; every list is aligned twice. Drawn after the older streams.
+    for q in range(ctx.n(160, 1000)):
+        case, style, dup, exposed = gen_align_mix(rnd, style=MIX_STYLES[q % len(MIX_STYLES)] if q < 2 * len(MIX_STYLES) else None)
+        record('align', case, check_align, repr(case), {'mats': case['mats'][:2]} if q < 2 else None,
+               nontrivial=any(s_['entries'] for s_ in case['mats']))
+        ctx.count('stream:align:mixed-dtype')
+        ctx.count(f'align-mix:style={style.split(":")[0]}')
+        ctx.count(f'align-mix:float-values={":".join(style.split(":")[1:])}')
+        ctx.count(f'align-mix:dummy-trick-inexact-on-an-integer-entry={exposed}')
+        ctx.count('align-mix:dtypes=' + '+'.join(sorted({np.dtype(s_['dtype']).kind for s_ in case['mats']})))
+        if dup:
+            ctx.count(f'align-mix:duplicate={dup}')
+    lap('10 align mixed dtype')
+    # 11. absolute scale (class L): the same kinds of batches multiplied by an exact power of two 2^+-(40..250), i.e. entries of
+    #     1e-80 / 1e+80 whose differences are "zero" / "infinite" for any absolute epsilon or np.allclose default; every judgement
+    #     of the helpers is relative to the scale of the tensor; and batches in which some tensors occur twice (class K)
+    for q in range(ctx.n(40, 300)):
+        helper = ['principal', 'arrmat', 'lte', 'principal'][q % 4]
+        order = rnd.choice(orders) if helper != 'lte' else ident
+        eng = True if helper == 'lte' else rnd.random() < .5
+        if rnd.random() < .5:
+            a, _, kinds = batch(rnd, order, eng)
+        else:
+            a, kinds = special_batch(rnd, order, eng)
+        e = rnd.choice([-1, 1]) * rnd.randint(40, 250)
+        mode = rnd.choice(['scale', 'scale', 'scale+duplicates', 'duplicates'])
+        if mode != 'duplicates':
+            a = a * 2.0**e
+        if 'duplicates' in mode:
+            a = np.concatenate([a, a[[rnd.randrange(len(a)) for _ in range(rnd.randint(1, 3))]]])
+            a = a[rnd.sample(range(len(a)), len(a))]
+        case = {'f': a.tolist()} if helper == 'lte' else {'a': a.tolist(), 'order': list(order), 'eng': eng}
+        if helper == 'arrmat':
+            case['layout'] = 'C'
+        record(helper, case, CHECKS[helper], ('L', helper, a.tobytes(), order, eng), None, nontrivial=bool(np.any(a)))
+        ctx.count(f'stream:abs-scale:{helper}')
+        ctx.count(f'abs-scale:mode={mode}')
+        if mode != 'duplicates':
+            ctx.count('abs-scale:2^%s%d..' % ('+' if e > 0 else '-', abs(e) // 50 * 50))
+    lap('11 absolute scale / duplicates')
     ctx.extra['orders'] = len(orders)
 
 
